@@ -16,8 +16,34 @@
 #include <thread>
 #include <vector>
 
-#include "xtl/xhash.hpp"
+// every header of the library, in alphabetical order, as a program using several parts of xtl would have them: what one
+// header declares (helpers in xtl::detail, overloads, macros) must not change what the hash functions compute
+#include "xtl/xany.hpp"
+#include "xtl/xbase64.hpp"
 #include "xtl/xbasic_fixed_string.hpp"
+#include "xtl/xclosure.hpp"
+#include "xtl/xcompare.hpp"
+#include "xtl/xcomplex.hpp"
+#include "xtl/xcomplex_sequence.hpp"
+#include "xtl/xdynamic_bitset.hpp"
+#include "xtl/xfunctional.hpp"
+#include "xtl/xhalf_float.hpp"
+#include "xtl/xhash.hpp"
+#include "xtl/xhierarchy_generator.hpp"
+#include "xtl/xiterator_base.hpp"
+#include "xtl/xmasked_value.hpp"
+#include "xtl/xmeta_utils.hpp"
+#include "xtl/xmultimethods.hpp"
+#include "xtl/xoptional.hpp"
+#include "xtl/xoptional_sequence.hpp"
+#include "xtl/xplatform.hpp"
+#include "xtl/xproxy_wrapper.hpp"
+#include "xtl/xsequence.hpp"
+#include "xtl/xspan.hpp"
+#include "xtl/xsystem.hpp"
+#include "xtl/xtype_traits.hpp"
+#include "xtl/xvariant.hpp"
+#include "xtl/xvisitor.hpp"
 #include "../../refs/murmur_ref.hpp"
 
 #if defined(__SANITIZE_THREAD__)
@@ -55,7 +81,12 @@ namespace
         uint32_t got32 = 0;
         size_t want_fs = 0, got_fs = 0;
         bool fs = false;
+        uint64_t want_rec = 0, got_rec = 0;
     };
+    // a key that is an object of non-character type, written immediately before it is hashed (the hash functions take
+    // const void*: what they read are the object's bytes as they are at the call, whatever type wrote them)
+    struct Rec { uint32_t a, b, c, d, e; };
+    inline void fill_rec(Rec& r, uint32_t x) { r.a = x; r.b = x * 3u + 1u; r.c = ~x; r.d = x ^ 0x5a5a5a5au; r.e = x >> 3; }
     using FS = xtl::xbasic_fixed_string<char, 64>;
 
     size_t pick_len(uint64_t raw)
@@ -85,6 +116,12 @@ namespace
         k.want32 = ref::murmur2_32(k.p, k.len, static_cast<uint32_t>(k.seed));
         k.fs = k.len <= 64 && std::memchr(k.p, 0, k.len) == nullptr;
         if (k.fs) k.want_fs = static_cast<size_t>(ref::murmur64a(k.p, k.len, 0xc70f6907UL));
+        {
+            Rec r; fill_rec(r, static_cast<uint32_t>(k.seed >> 7));
+            unsigned char bytes[sizeof(Rec)];
+            std::memcpy(bytes, &r, sizeof(Rec));
+            k.want_rec = ref::murmur64a(bytes, sizeof(Rec), k.seed);
+        }
         return k;
     }
     void evaluate(Key& k)
@@ -96,6 +133,14 @@ namespace
         {
             FS s(reinterpret_cast<const char*>(k.p), k.len);
             k.got_fs = std::hash<FS>()(s);
+        }
+        {
+            Rec r;
+            fill_rec(r, static_cast<uint32_t>(k.seed >> 7) ^ 0xffffffffu);       // an earlier value in the same storage ...
+            uint64_t first = xtl::hash_bytes(&r, sizeof(Rec), static_cast<size_t>(k.seed));
+            fill_rec(r, static_cast<uint32_t>(k.seed >> 7));                    // ... overwritten just before the call that counts
+            k.got_rec = xtl::hash_bytes(&r, sizeof(Rec), static_cast<size_t>(k.seed));
+            if (first == k.got_rec) k.got_rec ^= 1;                              // (different records, different hashes)
         }
     }
 
@@ -133,6 +178,7 @@ namespace
                     if (k.got32 != k.want32) viol("murmur2_x86-ref", "murmur2_x86 returned a value other than the reference MurmurHash2" + what);
                     if (k.got64 != k.want64) viol("murmur2_x64-ref", "murmur2_x64 returned a value other than the reference MurmurHash64A" + what);
                     if (k.gotb != k.want64) viol("hash_bytes-ref", "hash_bytes returned a value other than the reference MurmurHash64A" + what);
+                    if (k.got_rec != k.want_rec) viol("hash_bytes-ref", "hash_bytes of an object of non-character type written just before the call differs from the reference hash of its bytes");
                     if (k.fs && k.got_fs != k.want_fs) viol("fixed-string-hash", "std::hash of a fixed string differs from the reference hash of its characters" + what);
                     run.dig(k.got64); run.dig(k.got32);
                 }
